@@ -46,6 +46,14 @@ def strip_shell_comments(text: str) -> str:
     return "".join(result)
 
 
+class MacroExpansionError(ValueError):
+    """Raised when macro expansion grows the text beyond MacroProcessor.MAX_EXPANDED_SIZE.
+
+    This happens when a macro references itself, directly or through other
+    macros: every expansion pass then multiplies the text.
+    """
+
+
 class MacroProcessor:
     """Preprocesses TJP content to expand macros.
 
@@ -59,6 +67,9 @@ class MacroProcessor:
     - ${now} - current date
     - ${today} - today's date
     """
+
+    # Upper bound (in characters) for the text while macros are being expanded
+    MAX_EXPANDED_SIZE = 5_000_000
 
     def __init__(self) -> None:
         self._macros: dict[str, str] = {}
@@ -173,10 +184,14 @@ class MacroProcessor:
         return content
 
     def _expand_once(self, content: str) -> str:
-        """Perform one pass of macro expansion."""
+        """Perform one pass of macro expansion.
+
+        Raises MacroExpansionError as soon as the expanded text exceeds MAX_EXPANDED_SIZE.
+        """
         result = []
         i = 0
         n = len(content)
+        size = 0  # length of the text collected in result
 
         while i < n:
             if content[i : i + 2] == "${":
@@ -195,12 +210,21 @@ class MacroProcessor:
                     macro_call = content[i + 2 : j - 1].strip()
                     expansion = self._expand_macro_call(macro_call)
                     result.append(expansion)
+                    size += len(expansion)
+                    if size > self.MAX_EXPANDED_SIZE:
+                        break
                     i = j
                     continue
 
             result.append(content[i])
+            size += 1
             i += 1
 
+        if size > self.MAX_EXPANDED_SIZE:
+            raise MacroExpansionError(
+                f"Macro expansion exceeds {self.MAX_EXPANDED_SIZE} characters; "
+                "a macro probably references itself (directly or through other macros)"
+            )
         return "".join(result)
 
     def _expand_macro_call(self, call: str) -> str:
